@@ -76,7 +76,7 @@ Theorem c_disjoint_sound (ps : list probe) (o : obs) : c_disjoint ps o = true ->
   forall j k pj pk cj ck tj tk, (j < k)%nat -> nth_error ps j = Some pj -> nth_error ps k = Some pk ->
   nth_error (o_coffs o) j = Some cj -> nth_error (o_coffs o) k = Some ck ->
   nth_error (o_toffs o) j = Some tj -> nth_error (o_toffs o) k = Some tk ->
-  (cj + n_ids (p_clu pj) <= ck \/ ck + n_ids (p_clu pk) <= cj) /\
+  (cj + n_ids (clu_ids pj) <= ck \/ ck + n_ids (clu_ids pk) <= cj) /\
   (tj + p_ntmpl pj <= tk \/ tk + p_ntmpl pk <= tj).
 Proof.
   unfold c_disjoint. rewrite !andb_true_iff. intros (((_ & _) & H1) & H2) j k pj pk cj ck tj tk Hlt Hj Hk Cj Ck Tj Tk.
@@ -86,9 +86,9 @@ Proof.
     destruct l2 as [|b l2]; [destruct i; discriminate|]. destruct i as [|i]; cbn [nth_error combine] in *.
     - congruence. - now apply IH. }
   split.
-  - apply (ivs_disjoint_sound _ H1 j k (cj, n_ids (p_clu pj)) (ck, n_ids (p_clu pk)) Hlt);
-      apply N; try assumption; [exact (map_nth_error (fun p : probe => n_ids (p_clu p)) j ps Hj)|
-                                exact (map_nth_error (fun p : probe => n_ids (p_clu p)) k ps Hk)].
+  - apply (ivs_disjoint_sound _ H1 j k (cj, n_ids (clu_ids pj)) (ck, n_ids (clu_ids pk)) Hlt);
+      apply N; try assumption; [exact (map_nth_error (fun p : probe => n_ids (clu_ids p)) j ps Hj)|
+                                exact (map_nth_error (fun p : probe => n_ids (clu_ids p)) k ps Hk)].
   - apply (ivs_disjoint_sound _ H2 j k (tj, p_ntmpl pj) (tk, p_ntmpl pk) Hlt);
       apply N; try assumption; [exact (map_nth_error (@p_ntmpl A V F) j ps Hj)|
                                 exact (map_nth_error (@p_ntmpl A V F) k ps Hk)].
